@@ -210,7 +210,26 @@ fn canaries() {
     if judge_same("contract", &m, &Ok(e.clone())).is_empty() { bad("missing contraction not flagged"); }
 }
 
+/// `c11 --miri-slice <seed> <cases> <max seconds>`: single-threaded, no files. The real extend/contract and the duke
+/// helpers (unsafe newtype punning in duke/src/tree/class.rs) run under the interpreter, with the same oracles.
+fn miri_slice(seed: u64, cases: usize, max_s: u64) -> i32 {
+    let mut rep = Report::new();
+    let deadline = std::time::Instant::now() + std::time::Duration::from_secs(max_s);
+    let cfg = GenCfg { max_classes: 5, max_fields: 1, max_methods: 1, max_params: 1, orphan: (1, 8), absent: (1, 8), comment_chance: (1, 5), ..GenCfg::default() };
+    let mut i = 0u64;
+    while (i as usize) < cases && std::time::Instant::now() < deadline {
+        let mut rng = Rng::new(common::rng::case_seed(seed, "C11/miri", i));
+        rep.cur = ("miri".into(), i);
+        match i % 4 { 0 => case::<2>(&mut rng, &mut rep, &cfg), 1 => case::<3>(&mut rng, &mut rep, &cfg), 2 => case::<4>(&mut rng, &mut rep, &cfg), _ => for _ in 0..20 { helper_case(&mut rng, &mut rep) } }
+        i += 1;
+    }
+    for v in rep.violations.values() { println!("SLICE-OBSERVATION {} ({}x)", v.signature, v.count); }
+    println!("MIRI-SLICE done cases={} (asked for {}) evaluations={} observations={}", i, cases, rep.evaluations, rep.violations.len());
+    0
+}
+
 fn main() {
+    if let Some((seed, n, max_s)) = common::miri::slice_args() { std::process::exit(miri_slice(seed, n, max_s)); }
     let mut ctx = Ctx::from_args("C11", 40, 420);
     let replay = load_replay(&mut ctx);
     canaries();
@@ -236,6 +255,13 @@ fn main() {
             "extend.refused.outer_missing", "extend.refused.outer_unnamed", "contract.rewrote_something", "inverse.checked_on_rewritten_set", "helpers.splittable", "helpers.dollar_but_not_splittable", "helpers.several_dollars", "helpers.recombined"] {
             meta.oblige(format!("at least one case with {k}"), rep.get(k) > 0);
         }
+    }
+    if ctx.replay.is_none() {
+        if ctx.tier == Tier::Thorough {
+            let r = common::miri::run_slice(&ctx, "c11", env!("CARGO_MANIFEST_DIR"), 80, 200, 285);
+            if let Some(line) = r.ub { rep.cur = ("miri".into(), 0); rep.violation(format!("miri: {line}"), json!({"how": "cargo +nightly miri run --offline -p c11 -- --miri-slice <seed> 80 200", "seed": ctx.seed as i64, "status": r.status})); }
+            meta.extra.insert("miri_slice".into(), json!(r.status));
+        } else { meta.extra.insert("miri_slice".into(), json!("not run in the quick tier")); }
     }
     std::process::exit(finish(&ctx, rep, meta));
 }
